@@ -24,14 +24,19 @@ def mc_configs(ctx):
                 ("one-open-autoXY-cut", nu.mc_consts(auto=("X", "Y"), mo=1, mcl=0, cut=1, rec=0)),
                 ("one-open-autoX-openfail", nu.mc_consts(auto=("X",), mo=1, mcl=0, fail=1)),
                 ("pending-validation-2cuts-2reconnects", nu.mc_consts(mo=1, moy=0, mcl=0, cut=2, rec=2)),
-                ("retry-after-failure", nu.mc_consts(mo=2, moy=0, mcl=0))]
+                ("retry-after-failure", nu.mc_consts(mo=2, moy=0, mcl=0)),
+                ("retry-after-failure-repaired", nu.mc_consts(mo=2, moy=0, mcl=0, fixed=set(nu.SIG_TAG.values()))),
+                ("one-open-no-auto-repaired", nu.mc_consts(mo=1, mcl=0, fixed=set(nu.SIG_TAG.values())))]
     return [("open-close", nu.mc_consts(mo=1, mcl=1)),
             ("cut-reconnect", nu.mc_consts(mo=1, mcl=0, cut=1, rec=1, sub=4)),
             ("open-fail-autoXY", nu.mc_consts(auto=("X", "Y"), mo=1, mcl=0, fail=1)),
             ("autoXY-cut", nu.mc_consts(auto=("X", "Y"), mo=1, mcl=0, cut=1)),
             ("autoX-openfail", nu.mc_consts(auto=("X",), mo=1, mcl=0, fail=1)),
             ("pending-validation-2cuts-2reconnects", nu.mc_consts(mo=1, moy=0, mcl=0, cut=2, rec=2)),
-            ("retry-after-failure", nu.mc_consts(mo=2, moy=0, mcl=0))]
+            ("retry-after-failure", nu.mc_consts(mo=2, moy=0, mcl=0)),
+            ("retry-after-failure-repaired", nu.mc_consts(mo=2, moy=0, mcl=0, fixed=set(nu.SIG_TAG.values()))),
+            ("open-close-repaired", nu.mc_consts(mo=1, mcl=1, fixed=set(nu.SIG_TAG.values()))),
+            ("x2y1-repaired", nu.mc_consts(mo=2, moy=1, mcl=0, fixed=set(nu.SIG_TAG.values())))]
 
 
 def model_check(ctx):
@@ -50,9 +55,10 @@ def model_check(ctx):
 def model_negative(ctx):
     """negative model configurations: (name, invariant expected to break, constants)"""
     res = []
-    for name, inv, consts in [("no-known-tags", "NoUnknownPanic", nu.mc_consts(mo=1, mcl=1, tags=())),
+    for name, inv, consts in [("no-known-tags", "NoUnknownPanic", nu.mc_consts(mo=1, mcl=1, tags=(), fixed=())),
                               ("silent-negotiation-error", "QuiesceOK", nu.mc_consts(mo=1, mcl=0, mut="silent_negotiation_error")),
                               ("vp-keeps-connection-state", "NoUnknownPanic", nu.mc_consts(mo=1, moy=0, mcl=0, cut=2, rec=2, mut="vp_keeps_conn_state")),
+                              ("open-ignored-unrepaired-untagged", "NoUnknownPanic", nu.mc_consts(mo=2, moy=0, mcl=0, fixed=(), tags=nu.TAGS - set(nu.SIG_TAG.values()))),
                               ("silent-task-end", "QuiesceOK", nu.mc_consts(auto=("X", "Y"), mo=1, mcl=0, cut=1, mut="silent_task_end"))]:
         r = tlc_mc(ctx, "NotifMC.tla", write_cfg(ctx, "neg_%s.cfg" % name, consts, ["SPECIFICATION Spec", "INVARIANTS MonOK NoUnknownPanic QuiesceOK", "CHECK_DEADLOCK FALSE"]),
                    workers=6, timeout=1200, expect_violation=True)
